@@ -57,6 +57,11 @@ CHECKS["C07"] = ("Coq theorems over all coefficients / limits / values (exact in
     "Model tied to odxtools.compumethods by correspondence over 7 categories x every value of -3..258 plus an exact-fraction oracle.",
     TB + "Integer internal/physical types and integer coefficients only; float-typed methods and behaviour outside the binary64 exactness envelope are modelled-not-verified; COMPUCODE not modelled.",
     "Rocq/Coq proof (nearest-rounding lemmas, induction over segments) + correspondence with exact rational oracle", "DESIGN.md §3 C07")
+CHECKS["C06"] = ("Coq theorems for all entry sets / messages: the prefix tree finds exactly the services filed under a non-empty prefix of the message (induction over the trie, with the empty-prefix refutation = recorded finding); "
+    "the layer reports exactly the candidates that contribute a message and raises DecodeError iff none does. Model tied to DiagLayer.decode / decode_response / service_groups by correspondence on generated layers "
+    "(shared, nested and empty prefixes, MATCHING-REQUEST, NRC-CONST, global negative responses) plus a prefix-tree-independent oracle built from the implementation's own coding objects.",
+    TB + "Coding objects' decoders are the codec model (scope as in C01-C05). Known findings: empty-constant-prefix, sibling-coding-object-fails.",
+    "Rocq/Coq proof (trie induction, exactness of candidate filtering) + correspondence", "DESIGN.md §3 C06")
 NA_REASON = "check not built yet in this round (work in progress; DESIGN.md §6 gives the order of work)"
 def main():
     checks = []
